@@ -14,4 +14,11 @@ SubQ      == {<<0, DFLT>>, <<1, 1>>, <<NPOS, 1>>}
 OtherQ    == {<<>>, <<2, 1>>, <<1, 0>>}
 OtherL2   == {<<>>, <<2>>, <<2, 1>>, <<1, 0>>}
 OtherL3   == {<<>>, <<2>>, <<2, 1>>, <<1, 0, 2>>, <<2, 2, 1>>}
+(* quick tier, N = 3: the smallest capacity at which a tail of two characters is shifted by one, i.e. at which the direction
+   of the overlapping copies matters; two non-NUL characters, few literals *)
+Chars12   == {1, 2}
+LitsN3q   == {<<>>, <<2>>, <<1, 2>>}
+Pos3q     == {0, 1, 2, 3, NPOS}
+SubN3q    == {<<0, DFLT>>, <<1, 1>>}
+OtherN3q  == {<<2, 1>>}
 =============================================================================
